@@ -911,6 +911,41 @@ func (e *c12Env) settle(key string) {
 	}
 }
 
+// bring: the parked put with ticket t; if the write is still queued behind earlier writes of its key, those are let
+// through (oldest first) until it reaches the store.  nil: no such write (never issued, resolved, or dropped).
+func (e *c12Env) bring(t int) *c12Put {
+	if p := e.tickets[t]; p != nil {
+		return p
+	}
+	w, ok := e.unarrived[t]
+	if !ok {
+		return nil
+	}
+	for n := 0; n < 64; n++ {
+		if e.claim(t, w.key, w.want, 0) {
+			delete(e.unarrived, t)
+			p := e.tickets[t]
+			if e.poisonLater[t] > 0 {
+				p.fail = e.poisonLater[t]
+				delete(e.poisonLater, t)
+			}
+			return p
+		}
+		p := e.fake.take(func(x *c12Put) bool { return x.key == w.key })
+		if p == nil {
+			delete(e.unarrived, t)
+			return nil
+		}
+		e.forget(p)
+		e.finishPut(p)
+		if !c12WaitFor(60*time.Millisecond, func() bool { return e.sameKeyParked(w.key) }) {
+			delete(e.unarrived, t)
+			return nil
+		}
+	}
+	return nil
+}
+
 // finish: done:<t>; reports whether the write failed (fault plan) and was repeated by the implementation
 func (e *c12Env) finish(t int) bool {
 	if p := e.tickets[t]; p != nil {
@@ -1386,6 +1421,49 @@ func (e *c12Env) runCase(f []string) string {
 				fail, _ = strconv.Atoi(a[2])
 			}
 			out = append(out, e.crash(a[1] == "p", fail, "", nil))
+		case "failrel":
+			// failrel:<ticket>:<i> — the checkpoint Put with that ticket fails at the store and, WITHOUT waiting for what
+			// the writer does with the error, session i is released.  A repetition of the failed Put is admissible only
+			// inside its own slot, i.e. before the release's Delete: one that reaches the store after the release has
+			// completed was re-issued behind a later write of the key (LATE) — it would resurrect the session.
+			t, _ := strconv.Atoi(a[1])
+			i, _ := strconv.Atoi(a[2])
+			pt := e.bring(t)
+			if pt == nil || !e.p.live(i) || pt.key != c12SessID(i) {
+				out = append(out, "skip")
+				continue
+			}
+			delete(e.tickets, t)
+			q := e.fake.take(func(x *c12Put) bool { return x == pt })
+			if q == nil {
+				out = append(out, "skip")
+				continue
+			}
+			q.fail = 1
+			e.fake.complete(q, true) // fails
+			e.tick++
+			r := e.runOp(c12SessID(i), func() { e.p.release(i) })
+			lg := e.log.take()
+			late := ""
+			var back *c12Put
+			c12WaitFor(5*time.Second, func() bool {
+				e.fake.mu.Lock()
+				for _, x := range e.fake.parked {
+					if x.ticket < 0 && x.key == q.key && bytes.Equal(x.val, q.val) {
+						back = x
+						break
+					}
+				}
+				e.fake.mu.Unlock()
+				return back != nil || !c12GoroutineAlive(q.gid)
+			})
+			if back != nil {
+				if z := e.fake.take(func(x *c12Put) bool { return x == back }); z != nil {
+					e.fake.complete(z, true)
+				}
+				late = " LATE"
+			}
+			out = append(out, "failrel"+r+" "+lg+late)
 		case "bind4":
 			// bind4:<i>:<lease> — the provider's DHCPv4 ACK for session i reaches the real handleAck: bind with an
 			// address allocated now (session without IPv4) or renew of the address it has
